@@ -197,6 +197,31 @@ pub fn limb_pattern_residues(p: &BigUint, limbs: usize, runs: usize, variants: b
             }
         }
     }
+    // limbs that REPEAT or cancel one another (a, a, 0, ...), (a, b, a^b, 0, ...), (a, a, ..., a), (0, b, 0, 0, b, ...): a fold
+    // over the limbs with the wrong operator (xor / sum / and instead of or) cannot tell these from zero
+    for a in [5u64, 0x0123_4567_89ab_cdef, 1u64 << 63, u64::MAX] {
+        let b = a.rotate_left(17) ^ 0x5555;
+        let pats: Vec<Vec<u64>> = vec![
+            vec![a, a],
+            vec![0, a, a],
+            vec![a, b, a ^ b],
+            vec![a, a.wrapping_neg()],
+            vec![0, b, 0, b],
+            vec![a; limbs],
+            (0..limbs).map(|i| if i == 0 || i + 2 == limbs { a } else { 0 }).collect(),
+        ];
+        for pat in pats {
+            let mut m = BigUint::zero();
+            for (i, l) in pat.iter().enumerate().take(limbs) {
+                m += BigUint::from(*l) << (64 * i);
+            }
+            // keep the pattern in the low limbs if the full width is not below p
+            let m = if &m < p { m } else { &m & &(pow2(64 * (limbs - 1)) - 1u32) };
+            if &m < p {
+                out.push(m);
+            }
+        }
+    }
     dedup(out)
 }
 
